@@ -145,3 +145,31 @@ func returnValues(g *ssa.Function, idx int) []ssa.Value {
 	}
 	return out
 }
+
+// ExpandedCallees lists the functions analysed as part of fn (directly or through another expanded callee).
+func ExpandedCallees(fn *ssa.Function) []*ssa.Function {
+	var out []*ssa.Function
+	seen := map[*ssa.Function]bool{fn: true}
+	var walk func(f *ssa.Function)
+	walk = func(f *ssa.Function) {
+		for _, b := range f.Blocks {
+			for _, in := range b.Instrs {
+				if c, ok := in.(*ssa.Call); ok {
+					if g := expandedCallee(c); g != nil && !seen[g] {
+						seen[g] = true
+						out = append(out, g)
+						walk(g)
+					}
+				}
+			}
+		}
+		for _, a := range f.AnonFuncs {
+			if !seen[a] {
+				seen[a] = true
+				walk(a)
+			}
+		}
+	}
+	walk(fn)
+	return out
+}
